@@ -197,6 +197,19 @@ impl Root {
             self.mark_dependents_dirty(node);
         }
 
+        // The start nodes have been written, not scheduled, and are never re-run here. Reset their
+        // marks now instead of when the loop below reaches them: a write to one of them made while
+        // this propagation is running (e.g. by an effect, at the end of a batch of writes to several
+        // signals) must traverse its dependents rather than stop at a node that looks scheduled.
+        {
+            let mut nodes_mut = self.nodes.borrow_mut();
+            for &node in start_nodes {
+                if let Some(node) = nodes_mut.get_mut(node) {
+                    node.mark = Mark::None;
+                }
+            }
+        }
+
         for &node in rev_sorted.iter().rev() {
             let mut nodes_mut = self.nodes.borrow_mut();
             // Only run if node is still alive.
